@@ -94,6 +94,7 @@ type Opts struct {
 	CloseMid  bool // Close races with in-flight calls
 	T         time.Duration
 	Cfg       int // client logging configuration (cli.NewCfg)
+	Tries     int // tries per call (0: one); with more, unanswered calls retransmit side by side
 }
 
 // The library hook variable is written once per process and family, before any client exists; the action of
@@ -151,7 +152,10 @@ func Run(f cli.Family, rng *rand.Rand, o Opts) *History {
 			mu.Unlock()
 		}
 	}
-	c, err := f.NewCfg(conn, o.T, 1, o.Cfg)
+	if o.Tries < 1 {
+		o.Tries = 1
+	}
+	c, err := f.NewCfg(conn, o.T, o.Tries, o.Cfg)
 	if err != nil {
 		panic(err)
 	}
@@ -167,7 +171,7 @@ func Run(f cli.Family, rng *rand.Rand, o Opts) *History {
 
 	doCall := func(r *rand.Rand, xid uint32, matcher string, held bool, inside int, ctx context.Context, cancel context.CancelFunc) *CallRec {
 		id := int(callID.Add(1))
-		rec := &CallRec{ID: id, Xid: xid, Matcher: matcher, Tries: 1, T: o.T, Held: held, InsideHolder: inside}
+		rec := &CallRec{ID: id, Xid: xid, Matcher: matcher, Tries: o.Tries, T: o.T, Held: held, InsideHolder: inside}
 		mu.Lock()
 		calls = append(calls, rec)
 		mu.Unlock()
